@@ -1,3 +1,2 @@
-open Datatypes
 
-val nth : nat -> 'a1 list -> 'a1 -> 'a1
+val forallb : ('a1 -> bool) -> 'a1 list -> bool
